@@ -97,8 +97,9 @@ def coq_gate(prop_file, clean=False):
         if clean:
             run("make clean >/dev/null 2>&1; rm -f Makefile Makefile.conf", cwd=COQ)
         # source-derived input of the development: the crate's named constants as /repo/src states them now
-        import srcconsts
+        import srcconsts, srcshape
         src_consts = srcconsts.regenerate(COQ)
+        srcshape.write_shape_v(srcshape.shared_shape())
         rc, out = run("coq_makefile -f _CoqProject -o Makefile >/dev/null && timeout 1500 make -j16", cwd=COQ)
         if rc != 0:
             tail = "\n".join(out.strip().split("\n")[-12:])
